@@ -51,7 +51,17 @@ META = {
     "assumptions": ["level_note: partial — universally quantified part is the static inventory"],
 }
 
-SCRATCH = os.environ.get("VERIF_SCRATCH_C09", "/work/scratch_c09")
+def _scratch_root():
+    """a scratch directory outside the repository under test and outside the framework's tracked files:
+    $VERIF_SCRATCH_C09, else /work/scratch_c09 when /work is writable, else <framework>/out/scratch_c09 (out/ is git-ignored)"""
+    if os.environ.get("VERIF_SCRATCH_C09"):
+        return os.environ["VERIF_SCRATCH_C09"]
+    if os.path.isdir("/work") and os.access("/work", os.W_OK):
+        return "/work/scratch_c09"
+    return os.path.join(core.OUT, "scratch_c09")
+
+
+SCRATCH = _scratch_root()
 READ_ALPHABET = {"seek", "read", "tell", "readinto", "readable", "seekable", "close", "closed", "name", "read1", "readline",
                  "readlines", "peek", "mode", "__enter__", "__exit__", "__iter__", "__next__", "readall", "size",
                  "writable", "isatty"}
